@@ -53,7 +53,7 @@ func (SubsScenario) GenCase(r *rand.Rand, prop string) interface{} {
 	}
 	// handlers: two literal resources and one parameterised, directly under
 	// the service name
-	kinds := r.IntN(4) // 0: resources+access, 1: only resource handlers, 2: only access, 3: both
+	kinds := r.IntN(4)     // 0: resources+access, 1: only resource handlers, 2: only access, 3: both
 	mixed := chance(r, 40) // each pattern draws its handler kinds for itself
 	mk := func(pattern string, typ int) PatSpec {
 		p := PatSpec{Pattern: pattern, Type: typ}
